@@ -443,6 +443,82 @@ fn summary_with_colliding_inspection(acc: &mut Acc) {
     }
 }
 
+/// More delegations than the step needs: threshold 1, two functionaries F and G, each hands in a
+/// sub-layout with its own sub-directory; one of them - in turn F and G, so that the faulty one has
+/// once the smaller and once the larger key id - is faulty in one of the ways the statement lists.
+/// A sub-layout that is handed in is verified like any other; a faulty one fails the step.
+fn surplus_leg(acc: &mut Acc) {
+    let k = k();
+    let dir = util::fresh_dir("c15s");
+    // (a sub-layout that is altered after signing, or signed by someone else than the functionary
+    // it is filed under, is no evidence at all - it is ignored like a badly signed link, and the
+    // other functionary's sub-layout satisfies the step: those two are not faults here)
+    let faults = ["none", "expired", "sub-directory-missing", "inner-link-missing", "inner-link-by-unauthorized-key", "inner-link-in-parent-directory"];
+    for fault in faults {
+        for faulty in 0..2usize {
+            for e in std::fs::read_dir(&dir).unwrap().flatten() {
+                let p = e.path();
+                if p.is_dir() {
+                    let _ = std::fs::remove_dir_all(p);
+                } else {
+                    let _ = std::fs::remove_file(p);
+                }
+            }
+            let pair = [k.f, k.g];
+            for (i, fk) in pair.iter().enumerate() {
+                let bad = i == faulty && fault != "none";
+                let expiry = if bad && fault == "expired" { world::now() - chrono::Duration::seconds(1) } else { world::far_future() };
+                let inner = world::layout(vec![world::step("in1", 1, &[k.b])], vec![], &[k.b, k.h], expiry);
+                let signer = if bad && fault == "signed-by-the-other-functionary" { pair[1 - i] } else { *fk };
+                let block = world::sign_layout(inner, &[signer]);
+                let text = if bad && fault == "inner-layout-tampered" {
+                    let mut v = world::block_value(&block);
+                    v["signed"]["readme"] = json!("altered after signing");
+                    v.to_string()
+                } else {
+                    world::block_text(&block)
+                };
+                world::write(&dir, &world::link_file("s", fk), &text);
+                let sub = dir.join(format!("s.{}", fk.prefix()));
+                if !(bad && fault == "sub-directory-missing") {
+                    std::fs::create_dir_all(&sub).unwrap();
+                }
+                let l = mk_link("in1", &[("src", 1)], &[("out", 2)]);
+                if bad && fault == "inner-link-missing" || bad && fault == "sub-directory-missing" {
+                    continue;
+                }
+                if bad && fault == "inner-link-by-unauthorized-key" {
+                    world::write(&sub, &world::link_file("in1", k.h), &world::block_text(&world::sign_link(l, &[k.h])));
+                } else if bad && fault == "inner-link-in-parent-directory" {
+                    world::write(&dir, &world::link_file("in1", k.b), &world::block_text(&world::sign_link(l, &[k.b])));
+                } else {
+                    world::write(&sub, &world::link_file("in1", k.b), &world::block_text(&world::sign_link(l, &[k.b])));
+                }
+            }
+            let lay = world::sign_layout(world::layout(vec![world::step("s", 1, &pair)], vec![], &[k.f, k.g], world::far_future()), &[k.owner]);
+            let v = world::verify(&lay, world::owner_map(&[k.owner]), &dir);
+            acc.evaluations += 1;
+            acc.states += 1;
+            acc.outcome(&format!("surplus|{}|{}", if fault == "none" { "valid" } else { "faulty" }, v.tag()));
+            let which = if pair[faulty].id() < pair[1 - faulty].id() { "smaller" } else { "larger" };
+            let w = || json!({"kind": "surplus-sub-layout", "fault": fault, "faulty_functionary_has_the_key_id": which, "faulty_index": faulty});
+            match &v {
+                Verdict::Ok(_) if fault != "none" => {
+                    acc.nontrivial += 1;
+                    acc.violation(&format!("accepted:surplus-sub-layout:{fault}"), &format!("a step with threshold 1 and two delegating functionaries was accepted although the sub-layout of the one with the {which} key id is faulty ({fault})"), w);
+                }
+                Verdict::Panic(l, m) => acc.violation(&format!("panic:{l}"), m, w),
+                Verdict::Err(_) if fault == "none" => acc.note("valid-surplus-tree-rejected(one-directional: not judged)"),
+                _ => {
+                    if fault != "none" {
+                        acc.nontrivial += 1;
+                    }
+                }
+            }
+        }
+    }
+}
+
 pub fn run(tier: Tier) -> i32 {
     let mut c = Check::new("C15", "model_checking", tier);
     let max_dev = if tier.thorough() { 2 } else { 1 };
@@ -523,17 +599,24 @@ pub fn run(tier: Tier) -> i32 {
     );
     let mut acc = Acc::merge_all(accs.into_iter().map(|(a, _)| a).collect());
     acc.transitions += transitions;
+    surplus_leg(&mut acc);
     plain_summaries(&mut acc);
     summary_with_colliding_inspection(&mut acc);
     crate::envprobe::judge(&mut acc, "C15:", &mut c.extra);
     c.acc = acc;
     c.rule = "state = (outer shape in {delegated step alone, delegated step followed by a step that MATCHes its products, a step followed by the delegated step, delegated step alone whose first inner step has no materials and whose last has no products}, inner sequence of 1..3 steps, 2 or 3 delegation levels, set of active deviations); transition = toggle one deviation starting from the fully valid tree; each state is one in_toto_verify run on a freshly built directory tree; non-trivial = at least one deviation".into();
-    c.bound_completed = format!("{} trees x all sets of <= {max_dev} compatible deviations out of {}; plain layouts of 1..3 steps for the summary clause", trees.len(), DEVIATIONS.len());
+    c.bound_completed = format!("{} trees x all sets of <= {max_dev} compatible deviations out of {}; plain layouts of 1..3 steps for the summary clause; a threshold-1 step with two delegating functionaries of whom one (the smaller, then the larger key id) hands in a validly signed sub-layout that fails its own verification in one of 5 ways", trees.len(), DEVIATIONS.len());
     c.assume("each deviation alone invalidates the sub-layout evidence (they were chosen that way); ring trusted");
     c.finish()
 }
 
 pub fn replay(case: &Value) -> Value {
+    if case["kind"] == "surplus-sub-layout" {
+        let mut acc = Acc::new();
+        surplus_leg(&mut acc);
+        let hit = acc.violations.values().find(|v| v.witness["fault"] == case["fault"]).map(|v| v.key.clone());
+        return json!({"violation": hit.or_else(|| acc.violations.keys().next().cloned())});
+    }
     if case.get("inspection_named_like_step").is_some() {
         let mut acc = Acc::new();
         summary_with_colliding_inspection(&mut acc);
